@@ -5,6 +5,9 @@ package net
 import (
 	"encoding/binary"
 	"fmt"
+	"github.com/basecomplextech/baselibrary/async"
+	"os"
+	"strconv"
 	"strings"
 	"sync"
 	"sync/atomic"
@@ -106,15 +109,26 @@ func (e *c11env) healthyRoundTrip(i int) error {
 	if st := ch.Send(ctxNone(), p); !st.OK() {
 		return fmt.Errorf("healthy Send: %v", st)
 	}
-	m, st := ch.Receive(async30())
+	m, st := ch.Receive(async.TimeoutContext(healthyTimeout()))
 	if !st.OK() {
-		return fmt.Errorf("healthy Receive: %v", st)
+		// keep the evidence: where is everybody?
+		return fmt.Errorf("healthy Receive: %v (round trip %d, %d bytes sent)\n%s", st, i, len(p), goroutineDump())
 	}
 	if string(m) != string(p) {
 		return fmt.Errorf("healthy echo corrupted (%d bytes, want %d)", len(m), len(p))
 	}
 	e.hOK.Add(1)
 	return nil
+}
+
+// healthyTimeout bounds one echo round trip of the well-behaved client (30 s; VERIF_C11_HEALTHY_S overrides).
+func healthyTimeout() time.Duration {
+	if v := os.Getenv("VERIF_C11_HEALTHY_S"); v != "" {
+		if n, err := strconv.Atoi(v); err == nil {
+			return time.Duration(n) * time.Second
+		}
+	}
+	return 30 * time.Second
 }
 
 func (e *c11env) close() {
@@ -476,6 +490,9 @@ func TestC11_PostHandshake(t *testing.T) {
 			max := 26
 			if ev.Thorough() {
 				max = 32
+			}
+			if v := os.Getenv("VERIF_C11_HUGEBITS"); v != "" {
+				max, _ = strconv.Atoi(v)
 			}
 			size := uint64(1)<<uint(rapid.IntRange(16, max).Draw(rt, "hugebits")) - uint64(rapid.IntRange(0, 1).Draw(rt, "hugeminus"))
 			kase.Frames = append(kase.Frames, fmt.Sprintf("length prefix %d followed by 5 bytes", size))
